@@ -117,7 +117,7 @@ pub fn write_pinned_sized(dir: &Path, seed: u64, big: bool, huge: usize) -> anyh
             let len = if huge_at == Some(i) {
                 huge
             } else if big && rng.pct(20) { *rng.pick(&[70_000usize, 300_000, 1_000_000]) } else { *rng.pick(&[1usize, 20, 200, 3900, 4100, 9000]) };
-            let pay = PaySpec::new(len, (rng.below(10)) as u8, seed.wrapping_mul(31).wrapping_add((c * 100 + i) as u64));
+            let pay = PaySpec::new(len, (rng.below(crate::ops::PAY_CLASSES as u64)) as u8, seed.wrapping_mul(31).wrapping_add((c * 100 + i) as u64));
             match server.add_version(id, parent, pay.bytes())? {
                 (PAdd::Ok(v), _) => {
                     ec.versions.push(ExpVersion { vid: v, parent, pay });
@@ -129,7 +129,7 @@ pub fn write_pinned_sized(dir: &Path, seed: u64, big: bool, huge: usize) -> anyh
                 (PAdd::ExpectedParentVersion(_), _) => anyhow::bail!("unexpected conflict while writing"),
             }
             if rng.pct(25) || huge_at == Some(i) {
-                let sp = PaySpec::new(if huge_at == Some(i) { huge + (1 << 20) } else { 16 + rng.usize(2000) }, 9, seed ^ (c * 1000 + i) as u64);
+                let sp = PaySpec::new(if huge_at == Some(i) { huge + (1 << 20) } else { 16 + rng.usize(2000) }, if i % 3 == 2 { 10 + (i % 3) as u8 } else { 9 }, seed ^ (c * 1000 + i) as u64);
                 server.add_snapshot(id, parent, sp.bytes())?;
                 // what was stored (the pinned code stamps the time itself)
                 let mut t = server.txn(id)?;
